@@ -22,6 +22,7 @@ def parseAct (x : String) : Option Act :=
     let lk := lock = "1"
     if ch = "conn" then some (.enterWait none extra lk) else ch.toNat?.map fun c => .enterWait (some c) extra lk
   | ["stuck", i] => i.toNat?.map .stuck
+  | ["return", ch, code] => do let c ← ch.toNat?; let k ← code.toNat?; pure (.brokerReturn c k)
   | ["die"] => some .die
   | ["reader"] => some .readerNotices
   | ["writer"] => some .writerFails
